@@ -65,6 +65,8 @@ func runThorough(id string, p *Prog, r *Report, repo string) {
 	r.Extra["extra_build_configs"] = cfgs
 	// (b) the checker validates itself against the overlay catalogue
 	selfValidate(id, p, r, repo)
+	// (c) and against the stored seeded changes
+	replaySeeds(id, r, repo, verifDirGlobal)
 }
 
 var knownGlobal *KnownFile
